@@ -293,7 +293,10 @@ def _classify_fill(evs):
             continue
         if num_value(a) == 0:
             vals.add("zero")
-        elif "nan" in show(a).lower():
+        elif show(a).lower() in ("np.nan", "numpy.nan", "math.nan", "nan", "float('nan')", "np.float32(np.nan)", "np.float64(np.nan)", "np.float16(np.nan)") \
+                or (a[0] == "const" and isinstance(a[1], float) and a[1] != a[1]):
+            vals.add("nan")
+        elif "nan" in show(a).lower() and not [x for x in _subterms_of(a) if x and x[0] in ("elem", "ite", "sub", "item")]:
             vals.add("nan")
         else:
             vals.add("other:" + show(a)[:20])
@@ -326,7 +329,21 @@ def _r2_conventions(run, members, results):
         got = _classify_fill(whole)
         if got != {want_fill}:
             anyf = _classify_fill(r.events)
-            if anyf and not whole:
+            if any(v.startswith("other:") for v in anyf | got):
+                # the value the buffer is filled with is not a constant the evaluation could name (looked up by a helper that
+                # walks a table, computed by code that is not followed): nothing is decided about the pre-fill
+                e0 = [e for e in r.events if e.kind == "call" and e.term[1][0] == "attr" and e.term[1][2] == "fill"][0]
+                run.undecided("C15.R2", f, e0.node, "fill_into_maskable_buffer pre-fills %s buffers with %s, which the evaluation cannot name" % (mode, show(e0.term[2][0])[:60]),
+                              kind="fill-value-unknown-" + mode, mode=mode)
+            elif anyf and not whole and _classify_fill([e for e in r.events if e.kind == "call" and e.term[1] == ("attr", B, "fill")]) == {want_fill} and not any(
+                    ("sym", p_) in _subterms_of(c[0]) for e in r.events if e.kind == "call" and e.term[1] == ("attr", B, "fill")
+                    for c in e.pc if c[0] != "loop" for p_ in ps[2:]):
+                # the right value, on the whole buffer, under a condition that is not about the rectangle or the data (e.g. "the
+                # table had an entry for this mode") and that the evaluation could not fold: not decided either way
+                e0 = [e for e in r.events if e.kind == "call" and e.term[1] == ("attr", B, "fill")][0]
+                run.undecided("C15.R2", f, e0.node, "fill_into_maskable_buffer pre-fills %s buffers under %s, which the evaluation cannot decide"
+                              % (mode, [show(c[0])[:50] for c in e0.pc if c[0] != "loop"][:2]), kind="fill-condition-unknown-" + mode, mode=mode)
+            elif anyf and not whole:
                 problems.append(("fill", f, "fill_into_maskable_buffer clears %s buffers only conditionally or only in part: pixels outside the addressed rectangle "
                                  "can keep what the previous user of the buffer left there" % mode))
             else:
